@@ -40,9 +40,11 @@ const (
 	dK dom = "K" // "#"+P
 	dU dom = "U" // URL-escaped K
 	dB dom = "BAD" // a raw name was spliced into a pointer
+	dQ dom = "Q"   // query-unescaped: '+' turned into space, not a faithful decoding of a $ref string
 )
 
 type encEngine struct {
+	objStack map[types.Object]bool
 	c      *Ctx
 	memo   map[ast.Expr]dom
 	onPath map[ast.Expr]bool
@@ -156,6 +158,73 @@ func (e *encEngine) mapKeyDomain(fi *core.FuncInfo, m ast.Expr) dom {
 	return dX
 }
 
+// domSet: the possible domains of an expression; a local with several definitions yields the union of the
+// domains of its definitions (a self-referential definition such as `k = decode(k)` is evaluated with the
+// other definitions standing for the inner occurrence).
+func (e *encEngine) domSet(fi *core.FuncInfo, x ast.Expr) []dom {
+	x = core.Unparen(x)
+	id, ok := x.(*ast.Ident)
+	if !ok {
+		return []dom{e.dom(fi, x)}
+	}
+	info := fi.Pkg.TypesInfo
+	o := info.Uses[id]
+	if o == nil {
+		o = info.Defs[id]
+	}
+	ld := e.c.P.Locals(fi)
+	if o == nil || ld.Params[o] || len(ld.Defs[o]) < 2 {
+		return []dom{e.dom(fi, x)}
+	}
+	if e.objStack == nil {
+		e.objStack = map[types.Object]bool{}
+	}
+	set := map[dom]bool{}
+	inner := e.objStack[o]
+	e.objStack[o] = true
+	for _, d := range ld.Defs[o] {
+		switch d.Kind {
+		case core.DefRangeKey:
+			set[e.mapKeyDomain(fi, d.Expr)] = true
+		case core.DefRangeVal:
+			set[e.elemDomain(fi, d.Expr)] = true
+		case core.DefAssign:
+			if inner {
+				continue
+			}
+			for _, dd := range e.domSetFresh(fi, d.Expr) {
+				set[dd] = true
+			}
+		case core.DefMulti:
+			if inner {
+				continue
+			}
+			set[e.multiDom(fi, d.Expr, d.Index)] = true
+		case core.DefZero:
+		default:
+			set[dX] = true
+		}
+	}
+	if !inner {
+		delete(e.objStack, o)
+	}
+	var out []dom
+	for d := range set {
+		out = append(out, d)
+	}
+	sort.Slice(out, func(i, j int) bool { return out[i] < out[j] })
+	return out
+}
+
+// domSetFresh evaluates without the memo (the memo may hold values computed under another recursion context).
+func (e *encEngine) domSetFresh(fi *core.FuncInfo, x ast.Expr) []dom {
+	saved := e.memo
+	e.memo = map[ast.Expr]dom{}
+	out := e.domSet(fi, x)
+	e.memo = saved
+	return out
+}
+
 func (e *encEngine) dom(fi *core.FuncInfo, x ast.Expr) dom {
 	x = core.Unparen(x)
 	if d, ok := e.memo[x]; ok {
@@ -204,6 +273,9 @@ func (e *encEngine) dom1(fi *core.FuncInfo, x ast.Expr) dom {
 		var res dom = ""
 		for _, d := range ld.Defs[o] {
 			var dd dom = dX
+			if e.objStack[o] && (d.Kind == core.DefAssign || d.Kind == core.DefMulti) {
+				continue // inner occurrence of a self-referential definition: the other definitions stand for it
+			}
 			switch d.Kind {
 			case core.DefAssign:
 				dd = e.dom(fi, d.Expr)
@@ -392,7 +464,7 @@ func (e *encEngine) multiDom(fi *core.FuncInfo, x ast.Expr, index int) dom {
 		return dX
 	}
 	switch callee.FullName() {
-	case "net/url.PathUnescape":
+	case "net/url.PathUnescape", "net/url.QueryUnescape":
 		if index == 0 {
 			return e.callDom(fi, call)
 		}
@@ -507,6 +579,13 @@ func (e *encEngine) callDom(fi *core.FuncInfo, call *ast.CallExpr) dom {
 			return dP
 		}
 		return dX
+	case "net/url.QueryUnescape":
+		// not the inverse of the escaping done by Ref.String(): '+' becomes a space
+		switch arg(0) {
+		case dK, dU, dP:
+			return dQ
+		}
+		return dX
 	case "strings.TrimPrefix", "strings.ToLower", "strings.ToUpper":
 		return dX
 	case "fmt.Sprintf":
@@ -579,7 +658,21 @@ func encRules(c *Ctx) {
 				return
 			}
 			if want == dX || got == dX {
-				return
+				// several possible domains (flow-insensitive): a definite mismatch only if every one mismatches
+				set := e.domSetFresh(fi, key)
+				all := len(set) > 0 && want != dX
+				for _, d := range set {
+					if d == dX || d == dS || d == want {
+						all = false
+					}
+				}
+				if !all {
+					return
+				}
+				got = set[0]
+				if len(set) > 1 {
+					got = set[len(set)-1]
+				}
 			}
 			nKeys++
 			ok := got == want || got == dS
@@ -641,6 +734,71 @@ func encRules(c *Ctx) {
 		c.S.Undecided("C04", "ENC-REFARG", "floor", "-", fmt.Sprintf("only %d reference constructions found below Flatten", nRefs))
 	}
 	e.mustRef()
+	e.consumers()
+}
+
+// consumers (C04/C12 consumer side): every JSON pointer built from an analyzer key in the rewriters goes through
+// url.PathUnescape first (keys of templated paths carry %7B…%7D when they were taken from a $ref string); the
+// sibling resolvers must agree.
+func (e *encEngine) consumers() {
+	c := e.c
+	n := 0
+	for _, fi := range c.P.SortedFuncs() {
+		if !strings.HasSuffix(fi.Pkg.PkgPath, "/replace") {
+			continue
+		}
+		info := c.info(fi)
+		for _, call := range calls(fi.Decl.Body) {
+			callee := c.P.CalleeAny(fi, call)
+			if callee == nil || callee.FullName() != "github.com/go-openapi/jsonpointer.New" || len(call.Args) != 1 {
+				continue
+			}
+			// is the argument derived from a string parameter of the function?
+			fromKey, unescaped := false, false
+			var walk func(x ast.Expr, depth int)
+			walk = func(x ast.Expr, depth int) {
+				if depth > 6 {
+					return
+				}
+				ast.Inspect(x, func(m ast.Node) bool {
+					switch v := m.(type) {
+					case *ast.CallExpr:
+						if cal := c.P.CalleeAny(fi, v); cal != nil && cal.FullName() == "net/url.PathUnescape" {
+							unescaped = true
+						}
+					case *ast.Ident:
+						o, ok := info.Uses[v].(*types.Var)
+						if !ok {
+							return true
+						}
+						if c.P.Locals(fi).Params[o] && core.IsString(o.Type()) {
+							fromKey = true
+							return true
+						}
+						for _, d := range c.P.Locals(fi).Defs[o] {
+							if d.Expr != nil {
+								walk(d.Expr, depth+1)
+							}
+						}
+					}
+					return true
+				})
+			}
+			walk(call.Args[0], 0)
+			if !fromKey {
+				continue
+			}
+			n++
+			for _, prop := range []string{"C04", "C01"} {
+				c.S.Decide(unescaped, prop, "ENC-CONSUMER", fi.QName()+"/jsonpointer.New", c.P.Pos(call.Pos()),
+					"the key is URL-unescaped before being parsed as a JSON pointer, like in the sibling resolver",
+					"the JSON pointer is built from the key without url.PathUnescape while the sibling resolver unescapes: keys taken from $ref strings of templated paths (%7Bid%7D) resolve their value but not their parent (or vice versa), and Flatten fails on a well-formed bundle")
+			}
+		}
+	}
+	if n < 2 {
+		c.S.Undecided("C04", "ENC-CONSUMER", "floor", "-", fmt.Sprintf("only %d key-to-pointer conversions found in the rewriters (confirmed by hand: 2)", n))
+	}
 }
 
 // rawNameIn: the expression (following locals) contains a path.Join that splices a raw name.
@@ -686,6 +844,8 @@ func domText(d dom) string {
 		return "URL-escaped $ref string"
 	case dS:
 		return "escape-neutral constant"
+	case dQ:
+		return "query-unescaped string ('+' decoded as space)"
 	}
 	return string(d)
 }
